@@ -188,6 +188,9 @@ func (d DB) ActorForOutbox(c context.Context, outboxIRI *url.URL) (*url.URL, err
 		return nil, err
 	}
 	a.dbAccess(c, "ActorForOutbox", us(outboxIRI))
+	if e, ok := a.Endpoints[us(outboxIRI)]; ok && e[1] == "outbox" {
+		return U(e[0]), nil
+	}
 	s, ok := trimSuffixes(us(outboxIRI), "/outbox")
 	if !ok {
 		return nil, a.fail(idx, c, fmt.Errorf("not an outbox: %s", us(outboxIRI)))
@@ -202,6 +205,9 @@ func (d DB) ActorForInbox(c context.Context, inboxIRI *url.URL) (*url.URL, error
 		return nil, err
 	}
 	a.dbAccess(c, "ActorForInbox", us(inboxIRI))
+	if e, ok := a.Endpoints[us(inboxIRI)]; ok && e[1] == "inbox" {
+		return U(e[0]), nil
+	}
 	s, ok := trimSuffixes(us(inboxIRI), "/inbox")
 	if !ok {
 		return nil, a.fail(idx, c, fmt.Errorf("not an inbox: %s", us(inboxIRI)))
@@ -216,6 +222,14 @@ func (d DB) OutboxForInbox(c context.Context, inboxIRI *url.URL) (*url.URL, erro
 		return nil, err
 	}
 	a.dbAccess(c, "OutboxForInbox", us(inboxIRI))
+	if e, ok := a.Endpoints[us(inboxIRI)]; ok && e[1] == "inbox" {
+		for ep, x := range a.Endpoints {
+			if x[0] == e[0] && x[1] == "outbox" {
+				return U(ep), nil
+			}
+		}
+		return U(e[0] + "/outbox"), nil
+	}
 	s, ok := trimSuffixes(us(inboxIRI), "/inbox")
 	if !ok {
 		return nil, a.fail(idx, c, fmt.Errorf("not an inbox: %s", us(inboxIRI)))
